@@ -2,14 +2,14 @@ SPECIFICATION MCSpec
 VIEW View
 CONSTANTS
   Streams = {1, 3}
-  IW = 4
-  CW = 6
-  DataSizes = {0, 1, 2, 4}
+  IW = 6
+  CW = 8
+  DataSizes = {0, 1, 2, 6}
   Pads = {0, 1}
-  RelSizes = {1, 2}
-  Targets = {4, 8}
-  SetVals = {2, 6}
-  NData = 3
+  RelSizes = {1, 2, 3}
+  Targets = {6, 10}
+  SetVals = {1, 8}
+  NData = 2
   NRel = 2
   NDrop = 1
   NRst = 1
